@@ -363,7 +363,10 @@ def _place_roots(fn_is_closure, place):
 class Origins:
     """may-depend-on closure of a local: params, closure upvars, calls, constants, aggregates"""
 
-    def __init__(self, flow):
+    def __init__(self, flow, keep=None):
+        """keep: optional predicate on a local's type; locals whose type it rejects are not traversed (value
+        provenance of one kind of payload instead of any dependence, e.g. not through a bool condition)"""
+        self.keep = keep
         self.flow = flow
         self.fn = flow.fn
         self.is_closure = flow.fn.kind == "Closure"
@@ -411,6 +414,8 @@ class Origins:
         if l in seen:
             return
         seen.add(l)
+        if self.keep is not None and not self.keep(self.flow.mir["locals"][l].get("ty") or ""):
+            return
         if 1 <= l <= self.argc:
             out.add(("param", l))
         for kind, bi, d in self._defs.get(l, ()):
